@@ -13,7 +13,7 @@ def parseRaw (j : Json) : Option RawOpt :=
 
 /-- programs:
   ["raise", catchable] | ["with", root, node, raw, force, [body]] | ["unpar", root, node, do1, [b1], do2, [b2]]
-  | ["try", catchAll, [body]] | ["put", root, node, raw(false|"auto"|true), force, guardFails, [handler], [rawBody]] -/
+  | ["rootrep", root, node, guardFails, [body]] | ["try", catchAll, [body]] | ["put", root, node, raw(false|"auto"|true), force, guardFails, [handler], [rawBody]] -/
 partial def parseProg (j : Json) : Option Prog := do
   let a ← asArr j
   let tag ← asStr (← a[0]?)
@@ -29,6 +29,8 @@ partial def parseProg (j : Json) : Option Prog := do
   | "put" =>
     some (.put ⟨← asNat (← a[1]?), ← asNat (← a[2]?)⟩ (← parseRaw (← a[3]?)) (← asBool (← a[4]?)) (← asBool (← a[5]?))
                (← list (← a[6]?)) (← list (← a[7]?)))
+  | "rootrep" =>
+    some (.rootReplace ⟨← asNat (← a[1]?), ← asNat (← a[2]?)⟩ (← asBool (← a[3]?)) (← list (← a[4]?)))
   | _ => none
 
 def regJson (r : Reg) : Json :=
